@@ -25,7 +25,7 @@ import (
 )
 
 func TestMain(m *testing.M) {
-	vstat.Rule("Raw TCP backend script: any status 200-999, 0-8 end-to-end headers (repeated names), body 0..1 MiB with Content-Length or chunked framing with generated chunk sizes and flush points; fault = one of {connection refused, close before any byte, RST before any byte, partial head then close, garbage head, full head + partial body then close/RST (Content-Length and chunked), never answer (transport ResponseHeaderTimeout), client cancels while the backend holds}. Proxy = StateListener(forward.New(..)), driven in-process (with the server context key present so that an aborted body copy panics as under a real server) and behind httptest.Server with a raw client. The fault x method table is enumerated completely in every run on top of the generated cases. Oracle: no fault => client status, end-to-end header values and body bytes equal the script's; refused/closed/reset before any byte => 502; header timeout => 504; cancellation => 499; partial/garbage head => 500 or 502; abort during body copy => truncated exchange, proxy survives and serves the next request; in all cases the listener saw exactly [connected, disconnected] with the same URL and the exchange terminated. Non-trivial: fault after the response head, or a chunked body > 32 KiB with >= 2 flushes, or cancellation.")
+	vstat.Rule("Raw TCP backend script: any status 200-999, 0-8 end-to-end headers (repeated names), body 0..1 MiB with Content-Length or chunked framing with generated chunk sizes and flush points; fault = one of {connection refused, close before any byte, RST before any byte, partial head then close, garbage head, status code below 100, full head + partial body then close/RST (Content-Length and chunked), never answer (transport ResponseHeaderTimeout), client cancels while the backend holds}. Proxy = StateListener(forward.New(..)), driven in-process (with the server context key present so that an aborted body copy panics as under a real server) and behind httptest.Server with a raw client. The fault x method table is enumerated completely in every run on top of the generated cases. Oracle: no fault => client status, end-to-end header values and body bytes equal the script's; refused/closed/reset before any byte => 502; header timeout => 504; cancellation => 499; partial/garbage head => 500 or 502; abort during body copy => truncated exchange, proxy survives and serves the next request; in all cases the listener saw exactly [connected, disconnected] with the same URL and the exchange terminated. Non-trivial: fault after the response head, or a chunked body > 32 KiB with >= 2 flushes, or cancellation.")
 	log.SetOutput(io.Discard) // httputil.ReverseProxy logs every aborted copy
 	vstat.Main(m.Run)
 }
@@ -74,7 +74,7 @@ type respScript struct {
 	retarget bool
 }
 
-var faults = []string{"refused", "close-before", "rst-before", "partial-head", "garbage-head", "body-close", "body-rst", "never-answer", "client-cancel"}
+var faults = []string{"refused", "close-before", "rst-before", "partial-head", "garbage-head", "invalid-status", "body-close", "body-rst", "never-answer", "client-cancel"}
 
 func genResp(t *rapid.T) *respScript {
 	s := &respScript{}
@@ -146,6 +146,8 @@ func (s *respScript) steps() []sim.Step {
 		return []sim.Step{{Write: head.Bytes()[:head.Len()/2]}, {Close: true}}
 	case "garbage-head":
 		return []sim.Step{{Write: []byte("\x00\x01garbage no http here\r\n\r\n")}, {Close: true}}
+	case "invalid-status": // a status line net/http's client accepts but no server can relay
+		return []sim.Step{{Write: []byte(fmt.Sprintf("HTTP/1.1 %03d Odd\r\nContent-Length: 2\r\n\r\nno", s.status%100))}, {Close: true}}
 	case "never-answer", "client-cancel":
 		return []sim.Step{{Hold: true}, {Close: true}}
 	}
@@ -338,7 +340,7 @@ func exchange(fatalf func(string, ...any), s *respScript, method string) {
 		if rec.Status() != 499 {
 			bad("client went away: recorded status %d, want 499", rec.Status())
 		}
-	case "partial-head", "garbage-head":
+	case "partial-head", "garbage-head", "invalid-status":
 		if rec.Status() != 500 && rec.Status() != 502 {
 			bad("backend sent an unusable response head: client got %d, want 502 or 500", rec.Status())
 		}
@@ -565,3 +567,137 @@ func waitEvents(ev *events, n int) []string {
 }
 
 var _ = sort.Strings
+
+// ---- coverage-guided: arbitrary backend bytes --------------------------------
+
+// pipeTransport talks to an in-memory backend that swallows the request head and
+// answers with fixed bytes, then closes. No sockets are involved.
+func pipeTransport(reply []byte) *http.Transport {
+	return &http.Transport{
+		DisableKeepAlives: true,
+		DialContext: func(ctx context.Context, network, addr string) (net.Conn, error) {
+			c, s := net.Pipe()
+			go func() {
+				defer s.Close()
+				br := bufio.NewReader(s)
+				for { // request head (the generated requests have no body)
+					l, err := br.ReadString('\n')
+					if err != nil {
+						return
+					}
+					if l == "\r\n" || l == "\n" {
+						break
+					}
+				}
+				_ = s.SetWriteDeadline(time.Now().Add(5 * time.Second))
+				_, _ = s.Write(reply)
+			}()
+			return c, nil
+		},
+	}
+}
+
+var hopByHop = map[string]bool{"Connection": true, "Proxy-Connection": true, "Keep-Alive": true, "Proxy-Authenticate": true, "Proxy-Authorization": true, "Te": true, "Trailer": true, "Transfer-Encoding": true, "Upgrade": true}
+
+// FuzzC16_BackendBytes: whatever bytes a backend sends, the client behind the
+// forwarder must see what a client talking to that backend directly sees (status,
+// end-to-end headers, body), a gateway error when the direct client gets no response at
+// all, and the forwarder must neither hang nor panic.
+func FuzzC16_BackendBytes(f *testing.F) {
+	for _, s := range []string{
+		"HTTP/1.1 200 OK\r\nContent-Length: 2\r\nX-A: 1\r\n\r\nok",
+		"HTTP/1.1 404 Not Found\r\nTransfer-Encoding: chunked\r\n\r\n3\r\nabc\r\n0\r\n\r\n",
+		"HTTP/1.1 204 No Content\r\n\r\n",
+		"HTTP/1.1 200 OK\r\nContent-Length: 10\r\n\r\nshort",
+		"HTTP/1.1 200 OK\r\nX-A: 1\r\nX-A: 2\r\nConnection: X-Secret\r\nX-Secret: s\r\n\r\nuntil close",
+		"HTTP/1.0 500 Oops\r\n\r\nbody",
+		"HTTP/1.1 103 Early Hints\r\nLink: </a>\r\n\r\nHTTP/1.1 200 OK\r\nContent-Length: 1\r\n\r\nx",
+		"HTTP/1.1 000 Zero\r\nContent-Length: 0\r\n\r\n", "HTTP/1.0 099 Low\r\n\r\nx",
+		"garbage\r\n\r\n", "", "HTTP/1.1 999 Weird\r\nContent-Length: 0\r\n\r\n", "HTTP/1.1 200 OK\r\nTransfer-Encoding: chunked\r\n\r\nzz\r\n",
+	} {
+		f.Add([]byte(s))
+	}
+	f.Fuzz(func(t *testing.T, reply []byte) {
+		if len(reply) > 1<<16 {
+			t.Skip()
+		}
+		mk := func() *http.Request {
+			return httptest.NewRequest("GET", "http://front.example/p?q=1", nil)
+		}
+		// reference: a client talking to the backend directly
+		dreq, _ := http.NewRequest("GET", "http://backend.invalid/p?q=1", nil)
+		dtr := pipeTransport(reply)
+		dresp, derr := dtr.RoundTrip(dreq)
+		var dbody []byte
+		var dreadErr error
+		if derr == nil {
+			dbody, dreadErr = io.ReadAll(dresp.Body)
+			dresp.Body.Close()
+		}
+		// through the forwarder
+		fwd := forward.New(false)
+		fwd.Transport = pipeTransport(reply)
+		ev := &events{}
+		h := forward.NewStateListener(fwd, ev.listener)
+		req := mk()
+		req.URL, _ = url.Parse("http://backend.invalid")
+		rec := sim.NewRecorder()
+		done := make(chan any, 1)
+		go func() {
+			defer func() { done <- recover() }()
+			h.ServeHTTP(rec, req)
+		}()
+		select {
+		case p := <-done:
+			if p != nil && p != http.ErrAbortHandler {
+				t.Fatalf("forwarder panicked on backend bytes %q: %v", reply, p)
+			}
+		case <-time.After(20 * time.Second):
+			t.Fatalf("forwarder hangs on backend bytes %q", reply)
+		}
+		if msg := checkPaired(ev.take(), "http://backend.invalid"); msg != "" {
+			t.Fatalf("%s (backend bytes %q)", msg, reply)
+		}
+		nt := false
+		switch {
+		case derr != nil:
+			if st := rec.Status(); st != 502 && st != 500 && st != 504 {
+				t.Fatalf("a direct client gets no response (%v) but the forwarder answered %d (backend bytes %q)", derr, st, reply)
+			}
+		case dresp.StatusCode < 100 || dresp.StatusCode > 999:
+			// not a status an HTTP server can relay: a failure of the backend
+			if st := rec.Status(); st != 502 && st != 500 {
+				t.Fatalf("backend sent the unusable status code %d but the forwarder answered %d (backend bytes %q)", dresp.StatusCode, st, reply)
+			}
+		case dresp.StatusCode == 101:
+			// protocol switch not requested by the client: out of scope here
+		default:
+			if rec.Status() != dresp.StatusCode {
+				t.Fatalf("direct client sees status %d, through the forwarder %d (backend bytes %q)", dresp.StatusCode, rec.Status(), reply)
+			}
+			named := map[string]bool{}
+			for _, v := range dresp.Header.Values("Connection") {
+				for _, tok := range strings.Split(v, ",") {
+					named[http.CanonicalHeaderKey(strings.TrimSpace(tok))] = true
+				}
+			}
+			for k, vs := range dresp.Header {
+				if hopByHop[k] || named[k] {
+					continue
+				}
+				if g := rec.SentHeader().Values(k); strings.Join(g, "\x00") != strings.Join(vs, "\x00") {
+					t.Fatalf("header %s: direct client sees %q, through the forwarder %q (backend bytes %q)", k, vs, g, reply)
+				}
+			}
+			if dreadErr == nil {
+				if !bytes.Equal(rec.Body(), dbody) {
+					t.Fatalf("direct client reads %d body bytes, through the forwarder %d (backend bytes %q)", len(dbody), len(rec.Body()), reply)
+				}
+				nt = len(dbody) > 0
+			} else if !bytes.HasPrefix(dbody, rec.Body()) && !bytes.HasPrefix(rec.Body(), dbody) {
+				t.Fatalf("truncated response: direct client read %q, through the forwarder %q (backend bytes %q)", dbody, rec.Body(), reply)
+			}
+		}
+		vstat.Case("fz"+string(reply), nt, []string{"fuzz-backend-bytes"}, nil)
+	})
+}
